@@ -52,7 +52,8 @@ SIG_B = "F-C07b-deque-mutated-in-reconnect"
 SIG_C = "F-C07c-loop-stop-join-none"
 SIG_D = "F-C07d-qos0-dropped-unmarked-by-reconnect"
 SIG_E = "F-C07e-lost-qos0-reported-success"
-EXPECTED_OPEN = (SIG_A, SIG_B, SIG_C, SIG_D, SIG_E)
+SIG_F = "F-C07f-inflight-negative-publish-during-reconnect"
+EXPECTED_OPEN = (SIG_A, SIG_B, SIG_C, SIG_D, SIG_E, SIG_F)
 LOCK_IDS = {"_mid_generate_mutex": 0, "_out_message_mutex": 1, "_in_callback_mutex": 2, "_callback_mutex": 3,
             "_msgtime_mutex": 4, "_in_message_mutex": 5, "_reconnect_delay_mutex": 6, "info_condition": 7}
 ROOT = os.path.dirname(os.path.dirname(os.path.abspath(__file__)))
@@ -521,7 +522,11 @@ def judge(run):
                         sk.id, i + 1, "QoS>0" if cls else "QoS 0", js))
     # accounting
     if complete and scen != "shutdown":
-        if c._inflight_messages != 0 or len(c._out_messages) != 0:
+        if c._inflight_messages < 0 and len(c._out_messages) == 0 and scen in ("async", "reconnect"):
+            add(SIG_F, "_inflight_messages=%d after every message completed: a QoS>0 publish() that ran between "
+                       "reconnect()'s _messages_reconnect_reset() and `self._sock = ...` was stored without being counted, "
+                       "was sent on CONNACK and decremented the counter when acknowledged" % c._inflight_messages)
+        elif c._inflight_messages != 0 or len(c._out_messages) != 0:
             add("inflight-accounting", "_inflight_messages=%d, %d messages left in _out_messages" % (
                 c._inflight_messages, len(c._out_messages)))
         if run.snap is not None and run.snap["queue"]:
@@ -562,8 +567,11 @@ def model_case(run):
             if kind == "want":
                 if d["caller"] == "_loop":
                     toks.append(0)
+            elif kind == "timeout":            # delivered while parked in select(): the model's Timeout token
+                toks.append(-1)
             elif kind == "select-ret":
-                toks.append(-1 if d["timeout"] else 0)
+                if not d["timeout"]:
+                    toks.append(0)
             elif kind in ("pipe-recv", "popleft", "send"):
                 toks.append(0)
     n = len(cfg["msgs"])
@@ -641,12 +649,16 @@ def learn_visible(cfg, seed, n=24):
     A shared lock is a decision point only if a conflicting attribute / shared resource is touched (or another
     such lock is taken) while it is held: otherwise, with no decision point inside, its critical sections are
     never interrupted in the enumeration, never contended, and commute."""
-    attrs, res, guards = set(), set(), collections.defaultdict(set)
+    guards = collections.defaultdict(set)
+    union = S.Scheduler(None)          # accumulates writers / accessors / resource users over all audit runs
 
     def absorb(r):
-        a, rs = r.sched.conflicts()
-        attrs.update(a)
-        res.update(rs)
+        for n_, w in r.sched.writers.items():
+            union.writers[n_] |= w
+        for n_, w in r.sched.accessors.items():
+            union.accessors[n_] |= w
+        for n_, w in r.sched.res_users.items():
+            union.res_users[n_] |= w
         for l, g in r.sched.guard_table().items():
             guards[l] |= g
     for k in range(n):
@@ -660,6 +672,7 @@ def learn_visible(cfg, seed, n=24):
         absorb(run_once(cfg, st, visible=(set(), set()), audit=True, keep_events=False))
         prefix = S.dfs_next_prefix(st.stack)
         k += 1
+    attrs, res = union.conflicts()
     attrs -= DFS_IGNORED_ATTRS
     locks = {r_ for r_ in res if r_ in guards or r_ in LOCK_ATTRS or r_ == "info_condition"}
     vis_res = set(res) - locks
@@ -690,6 +703,7 @@ class Acc:
         self.notes = set()
         self.lock_edges = set()
         self.unlocked = set()
+        self.new_conflicts = set()
         self.complete = True
         self.secs = 0.0
 
@@ -714,6 +728,7 @@ class Acc:
         self.notes |= o.notes
         self.lock_edges |= o.lock_edges
         self.unlocked |= o.unlocked
+        self.new_conflicts |= o.new_conflicts
         self.complete = self.complete and o.complete
         self.secs += o.secs
 
@@ -779,8 +794,7 @@ def dfs_subtree(job):
         sch = run.sched
         new_attrs = {a for a, w in sch.writers.items()
                      if len(w) >= 2 and a not in vis[0] and a not in DFS_IGNORED_ATTRS}
-        if new_attrs:
-            acc.notes.add("write by two threads outside the learnt conflict set: %s" % sorted(new_attrs))
+        acc.new_conflicts |= new_attrs
         acc.pre_hist[st.preemptions] += 1
         acc.max_decisions = max(acc.max_decisions, len(st.stack))
         record(acc, run, case_of(cfg, "dfs", visible, sch.choices), pending)
@@ -852,6 +866,7 @@ def plans(ctx):
         ("shutdown-2x1", {"scenario": "shutdown", "msgs": [[0], [1]]}, 1 if q else 2),
         ("async-2x1", {"scenario": "async", "msgs": [[0], [0]]}, 1 if q else 2),
         ("reconnect-2x2-drop1", {"scenario": "reconnect", "msgs": [[0, 0], [0]], "drop_after": 1}, 1 if q else 2),
+        ("async-1x1-q1", {"scenario": "async", "msgs": [[1]], "max_inflight": 2}, 1 if q else 2),
     ]
     if not q:
         dfs += [
@@ -900,15 +915,28 @@ def run(ctx, out):
                     for x in vs:
                         total.viol_count[x["signature"]] += 1
                         total.add_viol({"case": case, "what": x["what"], "signature": x["signature"]})
-        t_dfs_end = _time.time() + (deadline - _time.time()) * 0.7
+        t_dfs_end = _time.time() + (deadline - _time.time()) * 0.85
         for k, (name, cfg, bound) in enumerate(dfs_plans):
             left = len(dfs_plans) - k
             share = (t_dfs_end - _time.time()) / left
             if k == 0:
-                share = max(share, (t_dfs_end - _time.time()) * 0.55)     # the headline configuration
-            dl = _time.time() + max(3.0, share)
+                share = max(share, (t_dfs_end - _time.time()) * 0.6)      # the headline configuration
+            dl = _time.time() + max(8.0, share)
             visible = learn_visible(cfg, ctx.seed, 18 if ctx.quick else 40)
             a = explore_dfs(cfg, visible, bound, pool, ctx.n(200000, 3000000), dl)
+            if a.new_conflicts:
+                # the enumeration itself met an attribute written by two threads that the audit runs had not seen:
+                # add it (and the lock meant to protect it) to the decision points and enumerate again
+                extra = sorted(a.new_conflicts)
+                visible = (sorted(set(visible[0]) | a.new_conflicts),
+                           sorted(set(visible[1]) | {GUARDED[x] for x in extra if x in GUARDED}))
+                out.notes.append("%s: conflict set extended by %s after a first enumeration of %d schedules; enumerated again"
+                                 % (name, extra, a.runs))
+                total.merge(a)
+                out.stat("dfs-first-pass:" + name, a.runs)
+                a = explore_dfs(cfg, visible, bound, pool, ctx.n(200000, 3000000), max(dl, _time.time() + 8.0))
+                if a.new_conflicts:
+                    out.notes.append("%s: conflict set still incomplete: %s" % (name, sorted(a.new_conflicts)))
             total.merge(a)
             out.stat("dfs:" + name, a.runs)
             out.sample({"config": name, "cfg": cfg, "preemption_bound": bound, "schedules": a.runs,
